@@ -12,7 +12,7 @@ type poolInfo struct {
 	global   *ssa.Global // nil for a pool held in a struct field
 	field    *types.Var  // the struct field holding the pool (nil for a package-level pool)
 	owner    string      // "<Type>.<field>" for a field pool
-	elem     types.Type // common static type of New results and Put arguments (nil = inconsistent)
+	elem     types.Type  // common static type of New results and Put arguments (nil = inconsistent)
 	newFn    *ssa.Function
 	putSites []ssa.CallInstruction
 	getSites []ssa.CallInstruction
